@@ -109,6 +109,7 @@ func ruleC09(c *Check, p *Prog) {
 		checkDoneOnce(c, p, "R-DONE-ONCE", ref.Name+"/worker", d)
 		checkErrParallel(c, p, ref.Name, d)
 		checkWorkers(c, p, "R-WORKERS", ref.Name, d)
+		checkPublishBeforeDone(c, p, "R-ERR-RECORD", ref.Name+"/before-done", d)
 	}
 }
 
